@@ -32,6 +32,7 @@ class Tok:
     ann: Dict[str, object] = field(default_factory=dict)
     code: bool = True            # B: block kind ; D tokens: False
     pglobal: bool = True         # L from patch: global (not temp) label
+    site: Optional[tuple] = None  # patch tokens: (bid, item index) of the edit
     # filled by layout():
     pos: int = -1                # linear offset inside section
     ivpos: int = -1              # offset inside interval
